@@ -231,3 +231,78 @@ contract(
     domain=False,
     props=["C09"],
 )
+
+# ---------------------------------------------------------------------------------------------
+# attrpath-derived bindings (`a.b.c = v;`): the walk that finds the chain of (set, binding) pairs for a path, and the
+# removal built on it (C05, C04).  The view of the result: stack[k] = (S_k, B_k) with S_0 the target set, B_k the first
+# binding of S_k named segments[k] that is nested (the leaf: `leaf_nested`), and S_{k+1} = B_k.value.
+
+_STACK_SHAPE = [
+    "all(stack[k] is not None and isinstance(stack[k], tuple) and isinstance(stack[k][0], AttributeSet) and isinstance(stack[k][1], Binding) "
+    "for k in range(len(stack)))",
+    "stack[0][0] is target_set",
+    "all(stack[k][1] is first_binding(stack[k][0].values, segments[k], True) for k in range(len(stack) - 1))",
+    "all(stack[k + 1][0] is stack[k][1].value for k in range(len(stack) - 1))",
+]
+
+contract(
+    target=f"{M}::_walk_attrpath_stack",
+    params={"target_set": Ref("AttributeSet"), "segments": ArrOf("str"), "leaf_nested": Bool, "require_root": OneOf(Lit(True), Lit(False))},
+    returns=ListRef("tuple"),
+    locals={"stack": ListRef("tuple")},
+    entry_closure=True,
+    modifies=[],
+    ensures=[
+        "heap_unchanged()",
+        "implies(require_root, result is not None)",
+        "implies(result is not None, len(segments) >= 2 and len(result) == len(segments))",
+    ] + ["implies(result is not None, " + c.replace("stack", "result") + ")" for c in _STACK_SHAPE] + [
+        "implies(result is not None, result[len(result) - 1][1] is "
+        "first_binding(result[len(result) - 1][0].values, segments[len(segments) - 1], leaf_nested))",
+        "implies(result is not None, result >= alloc_at_entry())",
+        # the pairs refer to objects of the document, not to copies
+        "implies(result is not None, all(result[k][0] < alloc_at_entry() and result[k][1] < alloc_at_entry() for k in range(len(result))))",
+    ],
+    exsures={"KeyError": ["require_root", "heap_unchanged()"], "ValueError": ["require_root", "heap_unchanged()"]},
+    loops={0: Loop(invariant=[
+        "len(stack) == _i + 1 and len(stack) <= len(segments) - 1",
+        "stack >= alloc_at_entry()",
+        "isinstance(current, AttributeSet) and current < alloc_at_entry()",
+        "all(stack[k][0] < alloc_at_entry() and stack[k][1] < alloc_at_entry() for k in range(len(stack)))",
+        "current is stack[len(stack) - 1][1].value",
+        "stack[len(stack) - 1][1] is first_binding(stack[len(stack) - 1][0].values, segments[len(stack) - 1], True)",
+    ] + _STACK_SHAPE, modifies=["stack[]"])},
+    domain=False,
+    props=["C05", "C04"],
+)
+
+contract(
+    target=f"{M}::_remove_attrpath_value",
+    params={"target_set": Ref("AttributeSet"), "segments": ArrOf("str")},
+    returns=NoneT,
+    entry_closure=True,
+    modifies=["*"],
+    call_asserts={
+        # what is removed is exactly what the walk found: the leaf from its own parent ...
+        "parent_set.values.remove#0": [
+            "parent_set is stack[len(stack) - 1][0] and arg0 is stack[len(stack) - 1][1]",
+            "arg0 is first_binding(parent_set.values, segments[len(segments) - 1], False)",
+        ],
+        # ... the entry of the rendering order that carries *this* leaf object (identity, not equality) ...
+        "del target_set.attrpath_order": ["isinstance(item, _AttrpathEntry) and item.binding is leaf_binding",
+                                          "target_set.attrpath_order[index] is item"],
+        # ... and, walking outwards, only ancestors that have just become empty
+        "parent_set.values.remove#1": ["isinstance(arg0.value, AttributeSet) and len(arg0.value.values) == 0"],
+    },
+    ensures=[],
+    # a path that does not resolve is refused before anything is touched (C08).  ValueError can also come from list.remove in the
+    # pruning loop if a set on the path shared its `values` list with another one (no ownership invariant is assumed here), so
+    # nothing is claimed for it.
+    exsures={"KeyError": ["heap_unchanged()"], "ValueError": []},
+    loops={
+        0: Loop(invariant=["True"], modifies=["target_set.attrpath_order[]"]),
+        1: Loop(invariant=["True"], modifies=["<entry-lists>[]"]),
+    },
+    domain=False,
+    props=["C05", "C04", "C08"],
+)
